@@ -123,10 +123,10 @@ func IDs() []string {
 	return out
 }
 
-var allShapes = []string{"doc", "flat", "nested", "person", "rep3"}
+var allShapes = []string{"doc", "flat", "kv", "nested", "person", "rep3"}
 
 // c13Shapes adds the twin shapes (same column names, different physical types).
-var c13Shapes = []string{"doc", "flat", "flatb", "nested", "nestedb", "person", "rep3"}
+var c13Shapes = []string{"doc", "flat", "flatb", "kv", "nested", "nestedb", "person", "rep3"}
 
 // writerCandidates lifts ShrinkWriter to cases.
 func writerCandidates(c *core.Case) []*core.Case {
